@@ -68,6 +68,10 @@ def render(s):
         body += "  push.%d exec.mmr::num_leaves_to_num_peaks\n" % n
         return {"src": "use.std::collections::mmr\nbegin\n%send\n" % body, "inputs": [], "mmr_leaves": [[str(x) for x in W(i)] for i in range(1, n + 1)],
                 "mem_dump": [1000] + list(range(1001, 1001 + 8)) + list(range(2000, 2000 + n)) + [2500] + list(range(1500, 1509)) + list(range(2600, 2600 + n))}
+    if k == "smt_forged":
+        r_ = render(dict(s, kind="smt"))
+        r_["smt_forge"] = True
+        return r_
     if k == "smt":
         items = s["init"].items() if isinstance(s["init"], dict) else enumerate(s["init"], 1)
         init = [[KEYS[int(kk)], VALS[v]] for kk, v in sorted(items) if v != 0]
@@ -98,6 +102,17 @@ def run(tier, replay=None):
         scs += ss
     # commitment check of pipe_preimage_to_memory: the right and a wrong commitment
     scs += [{"kind": "pipe_preimage", "n": n, "w": 100, "good": g} for n in (1, 2, 3, 4) for g in (True, False)]
+    # sparse Merkle tree under a dishonest advice map (every leaf hash answered with another leaf's preimage): the
+    # procedures must fail or still return what the native tree returns (the map is only a hint, like the inputs of C09)
+    forged = []
+    for s_ in scs:
+        if s_["kind"] == "smt":
+            items = s_["init"].items() if isinstance(s_["init"], dict) else enumerate(s_["init"], 1)
+            if sum(1 for _, v in items if v != 0) >= 2 and len(forged) < (400 if thorough else 120):
+                f_ = dict(s_)
+                f_["kind"] = "smt_forged"
+                forged.append(f_)
+    scs += forged
     if replay:
         with open(replay) as f:
             scs = [json.load(f)["replay"]["scenario"]]
@@ -140,6 +155,12 @@ def run(tier, replay=None):
             if k == "pipe_preimage" and not s["good"]:
                 if res["outcome"] == "ok":
                     bad("wrong-commitment-accepted", "pipe_preimage_to_memory accepted data that does not match the commitment (n = %d)" % s["n"])
+                continue
+            if k == "smt_forged":
+                if res["outcome"] == "ok":
+                    want = [[str(x) for x in VALS[v]] for v in s["results"]]
+                    if res.get("mem", []) != want:
+                        bad("forged-advice", "with a forged advice map smt results are %s instead of failing or returning %s (ops %s on %s)" % (res.get("mem"), want, s["ops"], s["init"]))
                 continue
             if k == "mmrfn" and not s["ok"]:
                 if res["outcome"] == "ok":
